@@ -141,7 +141,7 @@ fn run_c04(t: &mut Tape, _tier: Tier) -> RunOut {
 // ---------------------------------------------------------------------------------------------
 fn run_c05(t: &mut Tape, _tier: Tier) -> RunOut {
     let mut mix = Mix::base();
-    mix.defect_kinds = vec!["inject-required-header", "unsign-required", "unsign-host"];
+    mix.defect_kinds = vec!["inject-required-header", "unsign-required", "unsign-host", "signed-name-case"];
     mix.max_defects = 1;
     mix.defect_p10 = 5;
     mix.logical_kinds = vec!["hdr-add-new", "hdr-del"];
@@ -317,7 +317,7 @@ pub fn registry() -> Vec<Profile> {
             id: "C05",
             title: "mandatory signed headers",
             run: run_c05,
-            required: &["requirement_refusal_expected", "requirements_satisfied_case", "req_vec_impl", "req_slice_impl", "req[inject-required-header]", "req[unsign-required]", "req[unsign-host]"],
+            required: &["requirement_refusal_expected", "requirements_satisfied_case", "req_vec_impl", "req_slice_impl", "req[inject-required-header]", "req[unsign-required]", "req[unsign-host]", "req[signed-name-case]"],
             rule: "nodes with random requirement sets (always/conditional/prefix, random letter case, built through Slice… or Vec… with add/remove histories); faults: an intermediary injects a covered header, the client under-signs (signature over what it did sign stays correct), host left unsigned, unsigned header edits; non-trivial when a fault fired",
             quick_runs: 28000,
             thorough_runs: 336000,
